@@ -56,6 +56,24 @@ def run(chk, facts, tier):
     chk.rule('properties-byte', 'char_declaration_access sets each property bit from its own constant: read<-has_read_access, write<-has_write_access && !only_wwr, wwr<-(only_)write_without_response, notify, indicate', floor=1)
     chk.rule('bounded-write', 'bind_characteristic_value write: offset > sizeof(T) -> invalid_offset, offset + size > sizeof(T) -> invalid_attribute_value_length, then copy(buffer, buffer + size, ptr + offset)', floor=1)
     chk.rule('bounded-read', 'reads test buffer_offset against the value size (invalid_offset) and clamp buffer_size to size - offset before copying', floor=3)
+    chk.rule('write-success-only-from-write-path', 'in the dispatching characteristic_value_access of every value implementation a literal `success` is returned only on the read edge (args.type == read); '
+             'a write is answered by the write function selected through has_write_access / the write handler - never by a shortcut in front of that selection', floor=2)
+    for fn in facts.functions:
+        if fn.name != 'characteristic_value_access' or fn.kind != 'pattern' or '/tests/' in (fn.file or ''):
+            continue
+        n = 0
+        for r in fn.returns():
+            v = ret_value(r)
+            if v is None or strip_casts(v).n != 'success':
+                continue
+            n += 1
+            ats = guard_atoms(fn, r)
+            is_read = any(op == '==' and not isinstance(rr, int) and 'type' in strip_casts(l).text() and strip_casts(rr).n == 'read' for l, op, rr in ats if not isinstance(l, int))
+            chk.instance('write-success-only-from-write-path', fn, '%s line %d: return success on the read edge' % (fn.cls.split('::')[-2], r.l), is_read,
+                         '' if is_read else 'success is returned without passing the write permission selection (has_write_access): a write to a no_write_access / const value is accepted (e.g. the empty-buffer probe of Prepare Write)', node=r,
+                         key='%s@success' % fn.cls.split('::')[-2])
+        if n == 0:
+            chk.instance('write-success-only-from-write-path', fn, '%s: no literal success in the dispatcher' % fn.cls.split('::')[-2], True, key='%s@none' % fn.cls.split('::')[-2])
     chk.rule('invalid-offset-only-past-end', 'every value/declaration/descriptor access returns invalid_offset exactly under buffer_offset > <value size> (one comparison, strict): offset == size is served with an empty value', floor=7)
     offset_rule(chk, facts)
     chk.rule('notification-not-blocked-by-read-permission', 'a value implementation that can notify/indicate does not refuse the access l2cap_output uses for the notification because of no_read_access', floor=2)
